@@ -21,6 +21,7 @@ ORACLES = {
     'second-connection-keepalive': ('c15', 'second_connection_oracle', 'second_connection_case', 3),
     'stream0-order': ('c05', 'stream0_order_oracle', 'stream0_case', 4),
     'messaging-transport-failure': ('c04', 'messaging_battery', 'messaging_case', 60),
+    'rx-adapter-session': ('c20', 'adapter_session_oracle', 'adapter_session', 10),
     'endpoint-reads': ('c04', 'endpoint_reads_battery', 'kind', 100),
 }
 
